@@ -10,6 +10,7 @@ An obligation is a plain function `body(E, **params)`.  It is executed
 from __future__ import annotations
 
 import math
+import os
 import time
 import traceback
 from fractions import Fraction
@@ -196,6 +197,7 @@ class Env:
     def _solve(self, formulas, use_pc, use_defs=True):
         s = z3.Solver()
         s.set("rlimit", self.rlimit)
+        s.set("timeout", 20000)
         p = self.path
         if use_defs:
             for d in p.defs:
@@ -236,6 +238,11 @@ class Env:
             self.proved += 1
             return True
         if r == z3.sat:
+            if os.environ.get("VERIF_DEBUG"):
+                m = s.model()
+                print("DEBUG sat model for", label, "\n  model:", sorted((str(d), str(m[d])) for d in m.decls())[:40])
+                print("  defs:", [core.show(d, 8) for d in p.defs][:12])
+                print("  pc:", [core.show(c, 5) for c in p.pc][:30])
             self._fail("mismatch", label, detail + " [solver model]", model=s.model())
             return False
         st.unknown += 1
